@@ -36,6 +36,9 @@ class Gen:
 
     def anyname(self, fs):
         r = self.r
+        ini = fs.get("inited") or []
+        if ini and r.random() < 0.7:              # a name whose declaration has (textually) been passed already
+            return r.choice(ini)
         vis = sorted(fs["declared"] | fs.get("outer", set())) + (["e"] if fs["incatch"] else [])
         if vis and r.random() < 0.85:
             return r.choice(vis)
@@ -48,8 +51,20 @@ class Gen:
         if fs.get("argsok"):
             ch += ["arglen", "argget", "argget", "argset"]
         if d > 0:
-            ch += ["fn", "fn", "call", "call", "call", "add", "lt", "seq"]
+            ch += ["fn", "fn", "call", "call", "call", "add", "lt", "seq", "logassign", "incdec", "and", "or", "nullish", "cond", "sub"]
         c = r.choice(ch)
+        if c == "logassign":
+            x = self.anyname(fs)
+            if x in fs["loopvars"]:
+                return N("addassign", x=x, k=[N("num", n=1)])
+            return N("logassign", x=x, op=r.choice(["or", "and", "nullish"]), k=[self.expr(d - 1, fs)])
+        if c == "incdec":
+            x = self.anyname(fs)
+            return N("incdec", x=x, n=1 if x in fs["loopvars"] else r.choice([1, -1]), op=r.choice(["pre", "post"]))
+        if c in ("and", "or", "nullish", "sub"):
+            return N(c, k=[self.expr(d - 1, fs), self.expr(d - 1, fs)])
+        if c == "cond":
+            return N("cond", k=[self.expr(d - 1, fs), self.expr(d - 1, fs), self.expr(d - 1, fs)])
         if c == "num":
             return N("num", n=r.randint(0, 3))
         if c == "arglen":
@@ -72,7 +87,11 @@ class Gen:
         if c == "fn":
             return self.fn(d - 1, fs)
         if c == "call":
-            callee = N("ref", x=self.anyname(fs) if r.random() < 0.8 else r.choice(FUNS)) if r.random() < 0.7 else self.fn(d - 1, fs)
+            fn_names = fs.get("fnames") or []
+            if fn_names and r.random() < 0.75:
+                callee = N("ref", x=r.choice(fn_names))
+            else:
+                callee = N("ref", x=self.anyname(fs) if r.random() < 0.8 else r.choice(FUNS)) if r.random() < 0.6 else self.fn(d - 1, fs)
             return N("call", k=[callee] + [self.expr(d - 1, fs) for _ in range(r.randint(0, 2))])
         if c in ("add", "lt"):
             return N(c, k=[self.expr(d - 1, fs), self.expr(d - 1, fs)])
@@ -84,7 +103,8 @@ class Gen:
         params = r.sample(PARAMS, r.randint(0, 2))
         name = decl_name or (r.choice(FUNS) if kind == "named" else "")
         inner = dict(declared=set(params), params=params, loopvars=set(), incatch=False, top=True, outer=fs["declared"] | fs.get("outer", set()),
-                     argsok=(kind != "arrow") or fs.get("argsok", False), revar=set(params))
+                     argsok=(kind != "arrow") or fs.get("argsok", False), revar=set(params),
+                     inited=list(fs.get("inited") or []) + list(params), fnames=list(fs.get("fnames") or []))
         defaults = [N("none") for _ in params]
         if params and r.random() < 0.35:
             # default value expressions live in the parameter scope: they see the parameters (earlier ones initialised) and the outer scope
@@ -119,6 +139,8 @@ class Gen:
             if nm:
                 fs["declared"].add(nm)
                 fs.setdefault("revar", set()).add(nm)
+                fs.setdefault("fnames", []).append(nm)
+                fs.setdefault("inited", []).append(nm)
                 out.append(self.fn(d - 1, fs, decl_name=nm))
                 if r.random() < 0.15:       # a second declaration of the same function name: the last one wins
                     out.append(self.fn(d - 1, fs, decl_name=nm))
@@ -135,7 +157,9 @@ class Gen:
         r = self.r
         ch = ["expr", "expr", "expr", "decl", "decl"]
         if d > 0:
-            ch += ["block", "if", "for", "for", "try", "try", "return", "expr", "switch"]
+            ch += ["block", "if", "for", "for", "forof", "try", "try", "return", "expr", "switch", "evalcode"]
+            if fs.get("noreturn"):
+                ch = [x for x in ch if x != "return"]
         if fs.get("inloop") or fs.get("inswitch"):
             ch += ["break"]
         if fs.get("inloop"):
@@ -157,11 +181,32 @@ class Gen:
                 if kind == "var":
                     fs.setdefault("revar", set()).add(nm)
                 init = [self.expr(d, fs)] if (kind == "const" or r.random() < 0.8) else []
+                if init and init[0]["t"] == "fn":
+                    fs.setdefault("fnames", []).append(nm)
+                fs.setdefault("inited", []).append(nm)
                 return N(kind, x=nm, k=init)
         if c == "expr":
             return N("expr", k=[self.expr(d, fs)])
         if c in ("break", "continue"):
             return N(c)
+        if c == "forof":
+            nm = self.fresh(fs, VARS)
+            if nm is None:
+                return N("expr", k=[self.expr(d, fs)])
+            fs["declared"].add(nm)
+            kind = r.choice([0, 0, 1, 2])
+            if kind == 1:
+                fs.setdefault("revar", set()).add(nm)
+            fs2 = dict(fs, inloop=True, inswitch=False)
+            elems = [self.expr(d - 1, fs) for _ in range(r.randint(1, 3))]
+            body = self.block(d - 1, fs2)
+            if r.random() < 0.6:
+                body["k"].insert(r.randint(0, len(body["k"])), N("expr", k=[N("assign", x=r.choice(FUNS + ["y"]), k=[self.capt(nm) if kind != 2 else
+                                 N("fn", x="", kind="arrow", p=[], d=[], s=0, k=[N("return", k=[N("log", k=[N("ref", x=nm)])])])])]))
+            return N("forof", x=nm, n=kind, k=[N("arr", k=elems), body])
+        if c == "evalcode":
+            fs2 = dict(fs, inloop=False, inswitch=False, noreturn=True)
+            return N("evalcode", k=[self.stmt(d - 1, fs2, blocktop=True) for _ in range(r.randint(1, 3))])
         if c == "switch":
             fs2 = dict(fs, inswitch=True)
             vals = r.sample([0, 1, 2, 3], r.randint(1, 3))
@@ -211,6 +256,7 @@ class Gen:
     def capt(self, nm):
         """a closure reading (and sometimes writing) nm"""
         r = self.r
+        self._capt_made = True
         if r.random() < 0.3:
             body = [N("expr", k=[N("addassign", x=nm, k=[N("num", n=1)])]), N("return", k=[N("ref", x=nm)])]
         else:
@@ -218,10 +264,19 @@ class Gen:
         return N("fn", x="", kind=r.choice(["arrow", "func"]), p=[], d=[], s=0, k=body)
 
 
+def guard(stmt):
+    """try { stmt } catch (e) { LOG(e) }: an exception does not end the program (declarations are not wrapped: they would become block-scoped)"""
+    if stmt["t"] in ("var", "let", "const", "fdecl", "return"):
+        return stmt
+    return N("try", x="e", k=[N("block", k=[stmt]), N("block", k=[N("expr", k=[N("log", k=[N("ref", x="e")])])])])
+
+
 def random_program(pid, rnd, maxd=3):
     g = Gen(rnd, maxd)
-    fs = dict(declared=set(), params=[], loopvars=set(), incatch=False, top=True)
-    body = g.stmts(maxd, fs, top=True, maxn=5)
+    fs = dict(declared=set(), params=[], loopvars=set(), incatch=False, top=True, inited=[], fnames=[])
+    body = g.stmts(maxd, fs, top=True, maxn=6)
+    if rnd.random() < 0.7:
+        body = [guard(s) if rnd.random() < 0.8 else s for s in body]
     # make the closures observable: call what may hold one at the end
     for nm in FUNS + ["y"]:
         if rnd.random() < 0.6:
@@ -247,6 +302,8 @@ def has_top_return(stmts):
         if t == "try" and any(has_top_return([b]) for b in s["k"]):
             return True
         if t == "switch" and any(has_top_return(cs["k"][1:]) for cs in s["k"][1:]):
+            return True
+        if t == "forof" and has_top_return([s["k"][1]]):
             return True
     return False
 
@@ -275,6 +332,15 @@ def pe(e, o):
         return "(%s, %s)" % (pe(e["k"][0], o), pe(e["k"][1], o))
     if t == "call":
         return "(%s)(%s)" % (pe(e["k"][0], o), ", ".join(pe(a, o) for a in e["k"][1:]))
+    if t == "logassign":
+        return "(%s %s %s)" % (e["x"], {"or": "||=", "and": "&&=", "nullish": "??="}[e["op"]], pe(e["k"][0], o))
+    if t == "incdec":
+        sym = "++" if e["n"] == 1 else "--"
+        return "(%s%s)" % (sym, e["x"]) if e["op"] == "pre" else "(%s%s)" % (e["x"], sym)
+    if t in ("and", "or", "nullish", "sub"):
+        return "(%s %s %s)" % (pe(e["k"][0], o), {"and": "&&", "or": "||", "nullish": "??", "sub": "-"}[t], pe(e["k"][1], o))
+    if t == "cond":
+        return "(%s ? %s : %s)" % (pe(e["k"][0], o), pe(e["k"][1], o), pe(e["k"][2], o))
     if t == "arglen":
         return "arguments.length"
     if t == "argget":
@@ -327,6 +393,12 @@ def ps(stmts, o, ind):
         elif t == "for":
             out.append(p + "for (%s %s = %s; %s; %s) {\n%s\n%s}" % ("var" if s["n"] == 1 else "let", s["x"], pe(s["k"][0], o), pe(s["k"][1], o),
                                                                     pe(s["k"][2], o), ps(s["k"][3]["k"], o, ind + 1), p))
+        elif t == "forof":
+            out.append(p + "for (%s %s of [%s]) {\n%s\n%s}" % (["let", "var", "const"][s["n"]], s["x"], ", ".join(pe(x, o) for x in s["k"][0]["k"]),
+                                                               ps(s["k"][1]["k"], o, ind + 1), p))
+        elif t == "evalcode":
+            code = "eval(%s)" % json.dumps(ps(s["k"], o, 0))
+            out.append(p + ("K(%s);" if o.get("exprpos") else "%s;") % code)
         elif t in ("break", "continue"):
             out.append(p + t + ";")
             if o.get("deadcode"):
@@ -361,12 +433,50 @@ VARIANTS = ["base", "closure", "evaldyn", "with", "exprpos", "deadcode", "constv
             "evalbody", "global"]
 
 
+def top_eval_vars(stmts):
+    """does direct eval code outside nested functions declare a var? (in global code such a var merges with a property that a sloppy
+    assignment created on the global object, in a function it shadows it: the placements are not equivalent then)"""
+    for s in stmts:
+        t = s["t"]
+        if t == "evalcode":
+            if has_var(s["k"]) or top_eval_vars(s["k"]):
+                return True
+        elif t in ("block", "case"):
+            if top_eval_vars(s["k"][1:] if t == "case" else s["k"]):
+                return True
+        elif t in ("if", "try", "switch"):
+            if top_eval_vars([c for c in s["k"] if c["t"] in ("block", "case")]):
+                return True
+        elif t in ("for", "forof"):
+            if top_eval_vars([s["k"][-1]]):
+                return True
+    return False
+
+
+def has_var(stmts):
+    for s in stmts:
+        t = s["t"]
+        if t == "var" or (t in ("for", "forof") and s["n"] == 1):
+            return True
+        if t in ("block",) and has_var(s["k"]):
+            return True
+        if t == "case" and has_var(s["k"][1:]):
+            return True
+        if t in ("if", "try", "switch") and has_var([c for c in s["k"] if c["t"] in ("block", "case")]):
+            return True
+        if t in ("for", "forof") and has_var([s["k"][-1]]):
+            return True
+    return False
+
+
 def applicable(prog, v):
     top_fdecl = any(s["t"] == "fdecl" for s in prog["body"])
     if v == "with":
         return not prog["strict"] and not top_fdecl
     if v == "block":
         return not top_fdecl
+    if v == "global" and top_eval_vars(prog["body"]):
+        return False
     if v in ("evalbody", "global"):
         return not has_top_return(prog["body"])
     return True
